@@ -45,6 +45,8 @@ static void item_fn(void *ctx) { (void)ctx; atomic_fetch_add(&items_run, 1); }
 static void work_fn(void *ctx) { (void)ctx; usleep(200); }
 static void specific_dtor(void *v) { (void)v; atomic_fetch_add(&specific_dtor_runs, 1); }
 static void nop(void *c) { (void)c; }
+static _Atomic int cancel_done;
+static void cancel_done_fn(void *c) { (void)c; atomic_fetch_add(&cancel_done, 1); }
 static void suspend_self_fn(void *q) { atomic_fetch_add(&items_run, 1); dispatch_suspend((dispatch_queue_t)q); }
 
 // The memory of the group under test is never handed back to malloc: the harness can then tell exactly whether the library
@@ -59,7 +61,7 @@ void free(void *p) { if (p && p == quarantined) { atomic_store(&freed_flag, 1); 
 // wait until the refcount words of the given objects are stable (drains on worker threads finish asynchronously)
 static void settle2(volatile int *a, volatile int *b) {
 	int stable = 0, la = a ? *a : 0, lb = b ? *b : 0;
-	for (int k = 0; k < 4000 && stable < 6; k++) {
+	for (int k = 0; k < 4000 && stable < 10; k++) {
 		usleep(150);
 		int ca = a ? *a : 0, cb = b ? *b : 0;
 		if (ca == la && cb == lb) stable++; else { stable = 0; la = ca; lb = cb; }
@@ -129,11 +131,12 @@ static void run_lane_script(const char *ops) {
 		case 'S': { int before = atomic_load(&items_run); dispatch_async_f(q, q, suspend_self_fn); wait_for(&items_run, before + 1); } break;  // the drain is interrupted by a suspension: _dispatch_queue_invoke_finish
 		case 'x': hasfin = 1; dispatch_set_context(q, ctxbuf + 3); dispatch_set_finalizer_f(q, finalizer); break;
 		case 'y': dispatch_queue_set_specific(q, &skey, (void *)1, specific_dtor); break;
-		case 'm': src = dispatch_source_create(DISPATCH_SOURCE_TYPE_TIMER, 0, 0, q); dispatch_source_set_event_handler_f(src, nop); shown._ds = src; break;
+		case 'm': src = dispatch_source_create(DISPATCH_SOURCE_TYPE_TIMER, 0, 0, q); dispatch_source_set_event_handler_f(src, nop);
+			atomic_store(&cancel_done, 0); dispatch_source_set_cancel_handler_f(src, cancel_done_fn); shown._ds = src; break;
 		case 'M': dispatch_source_set_timer(src, dispatch_time(DISPATCH_TIME_NOW, 3600 * NSEC_PER_SEC), DISPATCH_TIME_FOREVER, 0);
 			dispatch_activate(src); break;
-		case 'X': dispatch_source_cancel(src); break;
-		case 'Z': dispatch_release(src); src = NULL; shown._dq = q; break;
+		case 'X': dispatch_source_cancel(src); wait_for(&cancel_done, 1); break;      // the cancel handler runs after unregistration
+		case 'Z': dispatch_release(src); wait_for(&cancel_done, 1); src = NULL; shown._dq = q; break;   // releasing cancels
 		case 'v': qi = dispatch_queue_create("c17.qi", dispatch_queue_attr_make_initially_inactive(NULL)); shown._dq = qi; break;
 		case 'V': dispatch_activate(qi); usleep(300); dispatch_release(qi); qi = NULL; shown._dq = q; break;
 		case 'z': break;
